@@ -1,5 +1,5 @@
 """C06, C02, C09, C01: checks whose direct oracle is CPython itself (pyref)."""
-import io, pickle, pickletools, re, struct
+import os, io, pickle, pickletools, re, struct
 import common as C
 import genprog as G
 import encgen as E
@@ -240,8 +240,29 @@ def dict_programs(rng, n):
 def c09(res, rng, tier):
     progs = kept_corpus("C09") + dict_programs(rng.fork("dicts"), 3000 if tier == "quick" else 50000) + sharing_matrix(("dict",))
     stats, lines, impl = compare_with_cpython(res, "C09", progs, "dict-building program")
+    # the non-transitive corner, which CPython 3 cannot express (a Python-2 str equal to both the str and the
+    # bytes of the same content): every order of the three kinds in every dict-building opcode; the reference
+    # is the decoder model, whose Dict is the reference dictionary under Python equality by the C08 theorems
+    import itertools
+    kinds = {"u": b"X\x01\x00\x00\x00a", "b": b"C\x01a", "z": b"U\x01a", "tu": b"X\x01\x00\x00\x00aK\x01\x86", "tb": b"C\x01aK\x01\x86", "tz": b"U\x01aK\x01\x86"}
+    nt_progs = []
+    for fam in (("u", "b", "z"), ("tu", "tb", "tz")):
+        for n in (2, 3):
+            for perm in itertools.permutations(fam, n):
+                ks = [kinds[k] for k in perm]
+                pairs = b"".join(k + b"K" + bytes([i + 1]) for i, k in enumerate(ks))
+                nt_progs += [b"(" + pairs + b"d.", b"}(" + pairs + b"u.", b"}" + b"".join(k + b"K" + bytes([i + 1]) + b"s" for i, k in enumerate(ks)) + b".",
+                             b"}q\x00(" + pairs + b"uh\x00."]
+    nt_lines = ["dec %s %s 0 %s" % (pd, su, p.hex()) for p in nt_progs for pd, su in CONFIGS]
+    nt_impl = C.implrun(nt_lines)
+    nt_model = C.modelrun(nt_lines)
+    for l, io_, mo in zip(nt_lines, nt_impl, nt_model):
+        if strip_model(mo) != io_:
+            res.violation("str / bytes / Python-2 str keys of equal content: Decode gives %s, the reference dictionary (Dict model) %s" % (io_[:120], strip_model(mo)[:120]),
+                          {"kind": "impl", "case": l, "observed": io_[:400], "model": mo[:400], "cmd": "echo '%s' | harness/go/implrun" % l})
     res.coverage.update({
-        "evaluations": len(lines), "distinct_nontrivial": stats["compared"] + stats["map_key_errors"],
+        "non_transitive_key_programs": len(nt_lines),
+        "evaluations": len(lines) + len(nt_lines), "distinct_nontrivial": stats["compared"] + stats["map_key_errors"],
         "rule": "dict-building programs: DICT / EMPTY_DICT+SETITEM / SETITEMS / mixed and reached again through the memo, keys from a colliding alphabet (1, 1.0, True, 1L via LONG and LONG1, I1, I01, 'a' as unicode / py2 str / bytes in every opcode form, tuples of these, 0/-0/False, NaN, 2^31, 2^63 as long and float, Refs, classes), nested dicts as values, x 4 configs; PyDict mode: same entry count, same key classes (documented equality), same final value per class as the dict CPython builds; default mode: entries per Go key identity (computed from CPython's assignment trace), error iff a key cannot be a Go map key; non-trivial = compared cases + documented-error cases",
         "programs": len(progs), "disagreements_checked": len(lines), **stats})
     res.samples = [{"program_hex": progs[i].hex()[:120], "impl": impl[4 * i + 2][:160]} for i in range(0, len(progs), max(1, len(progs) // 6))]
@@ -306,6 +327,29 @@ class ObjGen:
             self.pool.append(o)
         return o
 
+PY2_SCRIPT = r"""
+import cPickle, pickle, sys
+objs = [bytearray(b'abc'), bytearray(b''), bytearray(b'\\xff\\x00\\xe9caf'), [bytearray(b'x'), 'py2', u'uni'], {'k': bytearray(b'v'), u'u': 'b'},
+        ('a', u'a', 1, 2L, 2**70, -2**63, 1.5, None, True), 'plain', '', 'caf\\xe9', '\\xff', u'\\xe9', u'\\u2028x', [1L, [2L, ['s']]],
+        {1: 'one', 1L << 40: u'big', (1, 'a'): [u'x']}, [[], (), {}], ['s' * 300, u'u' * 300, bytearray(b'z' * 300)]]
+for o in objs:
+    for proto in (0, 1, 2):
+        for dumper in (cPickle.dumps, pickle.dumps):
+            sys.stdout.write(dumper(o, proto).encode('hex') + '\\n')
+"""
+
+def py2_pickles():
+    import subprocess
+    from props_enc import PY2
+    if not os.path.exists(PY2):
+        return []
+    p = subprocess.run([PY2, "-c", PY2_SCRIPT.replace("\\\\", "\\")], capture_output=True, timeout=120)
+    out = []
+    for l in p.stdout.decode().split():
+        try: out.append(bytes.fromhex(l))
+        except ValueError: pass
+    return sorted(set(out))
+
 @check("C02")
 def c02(res, rng, tier):
     q = tier == "quick"
@@ -358,6 +402,13 @@ def c02(res, rng, tier):
                 p = dumper(o, proto)
                 if p not in origin:
                     origin[p] = (proto, "batch"); progs.append(p)
+    # pickles written by CPython 2.7 (cPickle and pickle, protocols 0..2): Python-2 str next to unicode, long,
+    # bytearray (reduced through __builtin__.bytearray with a py2-str 'latin-1'), nested containers
+    py2 = py2_pickles()
+    for p in py2:
+        if p not in origin:
+            origin[p] = (2, "py2"); progs.append(p)
+    hist["py2"] = len(py2)
     stats, lines, impl = compare_with_cpython(res, "C02", progs, "CPython-produced pickle")
     res.coverage.update({
         "evaluations": len(lines), "distinct_nontrivial": stats["compared"] + stats["map_key_errors"],
